@@ -12,7 +12,7 @@ OUTSIDE = ["full Nesterov/original runs with smooth colliders (nested radicals);
            "normalize_support_direction (mesh-mesh with acceleration)", "rounding"]
 BOUNDS = {"quick": "original: 6 polytope pairs x 4 sweeps; nesterov +-acceleration: 3 pairs x 4 sweeps, primitives: box pairs; contract: all 121 ordered type pairs x 1 rotation sweep of the whole scene (all angles but pi)",
           "thorough": "all corpus pairs and sweeps; contract x 3 rotation sweeps x both modules"}
-WALL_BUDGET = {"quick": 420, "thorough": 900}
+WALL_BUDGET = {"quick": 300, "thorough": 600}
 EXPECTED_EXCEPTIONS = ()
 
 
